@@ -1,6 +1,8 @@
 from vlib import runner, sysprops
 
-PARTIAL = ['the liveness clause (cancel owed after a writable dispatch poll) is checked by the monitor on every trace; its Lean statement may be a def …Statement']
+PARTIAL = [
+    'third clause (after a dispatch poll during which the transport stayed writable every abandoned, transmitted, unfinished call has its cancel on the wire): kept as def C03FullStatement, decided by the monitor on every implementation trace, not proved',
+]
 
 
 def run(tier, seed, replay):
